@@ -831,11 +831,44 @@ func (t *tester) Test(row interface{}) bool {
 		}
 
 		if !driverValuesEqual(expected, value) {
-			return false
+			// The filter value may be written in another Go type than the
+			// column's (1 for a bool column, a string for a []byte column);
+			// compare what the column holds for it, as the database does.
+			coerced, ok := coerceToColumn(column, expected)
+			if !ok || !driverValuesEqual(coerced, value) {
+				return false
+			}
 		}
 	}
 
 	return true
+}
+
+// coerceToColumn scans a driver value into the column's Go type and returns
+// the driver value of the result.
+func coerceToColumn(column *Column, dv driver.Value) (driver.Value, bool) {
+	if dv == nil {
+		return nil, false
+	}
+	var target reflect.Value
+	if column.Descriptor.Ptr {
+		target = reflect.New(reflect.PtrTo(column.Descriptor.Type)).Elem()
+	} else {
+		target = reflect.New(column.Descriptor.Type)
+	}
+	scanner := column.Descriptor.Scanner()
+	scanner.Target(target)
+	if err := scanner.Scan(dv); err != nil {
+		return nil, false
+	}
+	if !column.Descriptor.Ptr {
+		target = target.Elem()
+	}
+	out, err := column.Descriptor.Valuer(target).Value()
+	if err != nil {
+		return nil, false
+	}
+	return out, true
 }
 
 func (s *Schema) MakeTester(table string, filter Filter) (Tester, error) {
